@@ -350,12 +350,13 @@ def check_na_onsets(env, rec, kinds_, pattern, label):
     """One HED column; some rows have onset n/a.  A row with a time is judged as in the file without the n/a rows; a row
     without a time as a file of its own without onset column (string-level checks, temporal tags not allowed)."""
     n = len(kinds_)
-    times = [None if p == "n/a" else 10.0 * (i + 1) for i, p in enumerate(pattern)]
+    times = [None if p != "t" else 10.0 * (i + 1) for i, p in enumerate(pattern)]
 
     def make(idx, with_onset=True):
         lines = ["onset\tHED" if with_onset else "HED"]
         for i in idx:
-            lines.append((("n/a" if times[i] is None else str(times[i])) + "\t" if with_onset else "") + KINDS[kinds_[i]])
+            # a cell of the onset column that is not a number (n/a or any other text) is a row without a time
+            lines.append(((pattern[i] if times[i] is None else str(times[i])) + "\t" if with_onset else "") + KINDS[kinds_[i]])
         return "\n".join(lines) + "\n"
 
     def errs(issues, relabel):
@@ -376,7 +377,22 @@ def check_na_onsets(env, rec, kinds_, pattern, label):
         return
     if got != sorted(want):
         rec.violation(f"C07:rows-without-time-change-the-issues:{label}", file=tsv, expected=sorted(want), got=got)
+        return
     rec.outcome("na-onset")
+    # the same rows in every file order (rows without a time between rows that are out of order): the issues follow the rows
+    for perm in itertools.permutations(range(n)):
+        if list(perm) == list(range(n)):
+            continue
+        ptsv = make(perm)
+        rec.n("evaluations")
+        try:
+            pgot = errs(validate_file(env, ptsv, "{}"), {k + 2: i + 2 for k, i in enumerate(perm)})
+        except Exception as e:
+            rec.violation(f"C07:raises:{type(e).__name__}:{label}:permuted", file=ptsv, error=repr(e)[:300])
+            return
+        if pgot != got:
+            rec.violation(f"C07:row-order-changes-the-issues:{label}", file=ptsv, in_time_order=got, this_order=pgot)
+            return
 
 
 def worker(rec, shard, nshards, thorough, seed):
@@ -419,10 +435,15 @@ def worker(rec, shard, nshards, thorough, seed):
         for pattern in itertools.product(("n/a", "t"), repeat=3):
             if "n/a" in pattern:
                 na_cases.append((combo, pattern))
+    # F6b the onset cell holds text that is neither a number nor n/a
+    for combo in itertools.product(["tag", "reptag", "onset", "duration"], repeat=2):
+        for text in ("abc", "1,5", "--", "1_000"):
+            na_cases.append((combo, (text, "t")))
+            na_cases.append((combo, ("t", text)))
     for ci in core.shard_order(len(na_cases), shard, nshards, seed):
         combo, pattern = na_cases[ci]
         rec.state(("F6", combo, pattern))
-        check_na_onsets(env, rec, combo, pattern, "F6")
+        check_na_onsets(env, rec, combo, pattern, "F6" if set(pattern) <= {"n/a", "t"} else "F6b")
     # F7 Delay / Duration groups whose value is wrong: reported on their row, never an exception
     bad_values = ["two s", "#", "2 parsecs", "", "2 MS", "2 s s", "-", "1e", "2 $"]
     bad_cases = [(tag, v, ons) for tag in ("Delay", "Duration", "delay") for v in bad_values
